@@ -50,16 +50,16 @@ macro "admission_core_case" : tactic => `(tactic| (
   (constructor <;> grind [markerLast_append_msg, markerLast_append_drain])))
 
 section
-variable {s s' : Shared} {rest stack' : List Frame} {id : Nat} {late bf : Bool} {ops : List Op}
+variable {s s' : Shared} {rest stack' : List Frame} {id : Nat} {late bf : Bool} {ops : List Op} {sk : List Nat}
   {A B C D A' B' C' D' : Nat} {seen : Word} {r : Res} {ret : Option Res}
 
 set_option hygiene false in
 macro "core_lemma " n:ident pc:term : command => `(
-  theorem $n (hs : stepThread s (⟨$pc, id, late, ops, bf⟩ :: rest) = some (s', stack'))
-    (d1 : Delta Frame.holds (⟨$pc, id, late, ops, bf⟩ :: rest) stack' A A')
-    (d2 : Delta Frame.atMEnq (⟨$pc, id, late, ops, bf⟩ :: rest) stack' B B')
-    (d3 : Delta Frame.obliged (⟨$pc, id, late, ops, bf⟩ :: rest) stack' C C')
-    (d4 : Delta Frame.badSeen (⟨$pc, id, late, ops, bf⟩ :: rest) stack' D D')
+  theorem $n (hs : stepThread s (⟨$pc, id, late, ops, bf, sk⟩ :: rest) = some (s', stack'))
+    (d1 : Delta Frame.holds (⟨$pc, id, late, ops, bf, sk⟩ :: rest) stack' A A')
+    (d2 : Delta Frame.atMEnq (⟨$pc, id, late, ops, bf, sk⟩ :: rest) stack' B B')
+    (d3 : Delta Frame.obliged (⟨$pc, id, late, ops, bf, sk⟩ :: rest) stack' C C')
+    (d4 : Delta Frame.badSeen (⟨$pc, id, late, ops, bf, sk⟩ :: rest) stack' D D')
     (h : InvN s A B C D) : InvN s' A' B' C' D' := by
   admission_core_case)
 
@@ -87,7 +87,7 @@ theorem invN_stepThread {s s' : Shared} {stack stack' : List Frame}
   cases stack with
   | nil => simp [stepThread] at hs
   | cons f rest =>
-    obtain ⟨pc, id, late, ops, bf⟩ := f
+    obtain ⟨pc, id, late, ops, bf, sk⟩ := f
     cases pc
     · exact core_run hs d1 d2 d3 d4 h
     · exact core_sStatus hs d1 d2 d3 d4 h
